@@ -63,6 +63,12 @@ def case_strategy(opts):
             # between the restricted run and the later full evaluation a tracked variable is assigned in the running process
             # (no module is reloaded: every function object stays the same)
             case["live_edit"] = draw(G.edits(prog, root, kinds=["setvar"], opts=opts))
+        if pre_entry is not None and draw(st.booleans()):
+            # the PRODUCER of the loaded path is edited and evaluated without the path_commit stage; the reader is then evaluated in full:
+            # it must still read what the path serves (the content committed before)
+            case["restrict_producer"] = True
+            case["nstages"] = draw(st.sampled_from([3, 4]))
+            case["history"] = "fresh"
         if pre_entry is not None:
             case["pre_entry"] = pre_entry
         elif n in (3, 4) and draw(st.integers(0, 2)) == 0:
@@ -155,12 +161,30 @@ def run_history(case, scratch, with_restricted):
                 raise Violation(f"restricted evaluation {STAGES[:4]} raised {r['exc']['type']}: {r['exc']['msg'][:200]}", case)
         stages = spell_stages(case["nstages"], case["spell"])
         all_paths = sorted({s_["path"] for p_ in (prog, case["old"]) for s_ in M.kept_sites(p_, root)} | ({"/src/v"} if pre is not None else set()))
-        if with_restricted:
+        if case.get("restrict_producer"):
+            prog_p = M.apply_edit(prog, ["setvar", 0, 7])
+            sess.inproc_edit(prog_p)
+            if with_restricted:
+                paths_before = path_state(sess, all_paths)
+                f_ = prog_p["funcs"][pre]
+                r = sess.w.call("call", module="vf.props.c15", func="_eval_stages", args=[M.modname(prog_p, f_["mod"]), f_["name"], stages, None])
+                if r["exc"] is not None:
+                    raise Violation(f"evaluating the edited producer with stages {stages} raised {r['exc']['type']}: {r['exc']['msg'][:200]}", case)
+                changed = sorted(p for p in all_paths if paths_before.get(p) != path_state(sess, all_paths).get(p))
+                if changed or r["synced"]:
+                    raise Violation(f"stages={stages}: evaluating the edited producer without path_commit changed what {changed or [list(d) for d in r['synced']]} serve", case)
+                out["restricted"] = r
+        elif with_restricted:
             reps = 2 if case["history"] == "twice" else 1
             for rep in range(reps):
                 before = c11.snapshot(sess.store_dir)
                 data_before = c11.snapshot(os.path.join(sess.store_dir, "data"))
                 paths_before = path_state(sess, all_paths) if kind != "noop" else {}
+                if not case.get("fail"):
+                    committed_ = {}
+                    if pre is not None:
+                        committed_ = dict(M.expected_value(prog, pre)[1].kept)
+                    out["expected_restricted"] = M.expected_value(prog, root, committed=committed_)[0]
                 r = eval_with_stages(sess, root, stages, case.get("fail"))
                 after = c11.snapshot(sess.store_dir)
                 data_after = c11.snapshot(os.path.join(sess.store_dir, "data"))
@@ -193,7 +217,9 @@ def judge_restricted(case, r, out, rep):
         raise Violation(f"{what}: restricted evaluation raised {r['exc']['type']}: {r['exc']['msg'][:300]}", case)
     if r["exc"] is not None:
         what += f" ({case['fail']['node']} raised {case['fail']['exc']})"
-    if n < 5 and out.get("paths_changed"):
+    # (after `orphan_blobs` a run that includes the eval stage legitimately re-stores blobs that committed links point to:
+    #  what those paths *load* changes although no path is committed - only the dry runs are compared there)
+    if n < 5 and out.get("paths_changed") and not (case["history"] == "orphan_blobs" and n >= 3):
         raise Violation(f"{what}: the paths {out['paths_changed']} serve something else (or appeared / disappeared) after an evaluation that did not request the path_commit stage", case)
     if n < 3:  # EVAL not requested: dry run
         if r["log"]:
@@ -204,6 +230,10 @@ def judge_restricted(case, r, out, rep):
             raise Violation(f"{what}: analysis-only evaluation changed the store directories", case)
         if r["value"] is not None:
             raise Violation(f"{what}: analysis-only evaluation returned {r['value']!r}", case)
+    if n >= 3 and r["exc"] is None and "expected_restricted" in out and r["value"] != out["expected_restricted"]:
+        raise Violation(f"{what}: the evaluation includes the eval stage but returned {r['value']!r}, expected {out['expected_restricted']!r}", case)
+    if n < 3:
+        pass
     elif n < 5:  # EVAL without PATH_COMMIT
         if r["synced"]:
             raise Violation(f"{what}: paths were committed although the path_commit stage was not requested: {[list(d) for d in r['synced']]}", case)
@@ -226,6 +256,8 @@ def check_case(case, ev=None, scratch=None):
             _, itp = M.expected_value(case["prog"], case["pre_entry"])
             committed = dict(itp.kept)
         final_prog = M.apply_edit(case["prog"], case["live_edit"]) if case.get("live_edit") else case["prog"]
+        if case.get("restrict_producer"):
+            final_prog = M.apply_edit(case["prog"], ["setvar", 0, 7])   # (what the path serves is still the content committed before the edit)
         exp, _ = M.expected_value(final_prog, case["root"], committed=committed)
         if a["full"]["value"] != exp:
             raise Violation(f"{what}: full evaluation after the restricted run returned {a['full']['value']!r}, expected {exp!r}", case)
@@ -245,7 +277,7 @@ def check_case(case, ev=None, scratch=None):
                      "program": c01.slim({"prog": case["prog"], "store": None, "steps": []})["program"]},
                     len(sites) >= 2 and case["history"] != "fresh",
                     features=[f"nstages{case['nstages']}", "spell:" + case["spell"], "history:" + case["history"], "store:" + case["store"][0]]
-                    + (["loads-earlier-path"] if case.get("pre_entry") is not None else []) + (["live-variable-edit-before-full-run"] if case.get("live_edit") else []) + (["user-failure-in-restricted-run"] if a.get("restricted", {}).get("exc") else []),
+                    + (["loads-earlier-path"] if case.get("pre_entry") is not None else []) + (["producer-evaluated-without-path-commit"] if case.get("restrict_producer") else []) + (["live-variable-edit-before-full-run"] if case.get("live_edit") else []) + (["user-failure-in-restricted-run"] if a.get("restricted", {}).get("exc") else []),
                     key=[M.pkey(case["prog"]), case["nstages"], case["spell"], case["history"], case["store"]])
     finally:
         if own:
